@@ -522,3 +522,107 @@ func VerifHarness_Cast() {
 		herrors.VerifAssert("non-conforming-value-rejected", intr != nil)
 	}
 }
+
+// ---- deep, narrow shapes ----
+
+// cvGenValueSpine / cvGenTypeSpine: a chain of D containers (one-element list, Some, one-field object) around a leaf,
+// so that conversions strictly inside an element of an element are reached without the width of the full family.
+func cvGenValueSpine(depth int, name string) *cvv {
+	if depth == 0 {
+		return cvGenValue(0, name)
+	}
+	switch herrors.VerifNdIntRange(name+"_c", 0, 2) {
+	case 0:
+		return &cvv{k: 'l', kids: []*cvv{cvGenValueSpine(depth-1, name+"_0")}}
+	case 1:
+		return &cvv{k: 'S', kids: []*cvv{cvGenValueSpine(depth-1, name+"_in")}}
+	}
+	return &cvv{k: 'o', keys: cvKeySets[1], kids: cvSpineKids(cvKeySets[1], depth, name)}
+}
+
+func cvSpineKids(keys []string, depth int, name string) []*cvv {
+	var kids []*cvv
+	for i, key := range keys {
+		if i == 0 {
+			kids = append(kids, cvGenValueSpine(depth-1, name+"_"+key))
+		} else {
+			kids = append(kids, &cvv{k: 'i', i: 7})
+		}
+	}
+	return kids
+}
+
+func cvGenTypeSpine(depth int, name string) *cvt {
+	if depth == 0 {
+		return cvGenType(0, name)
+	}
+	switch herrors.VerifNdIntRange(name+"_c", 0, 2) {
+	case 0:
+		return &cvt{k: 'l', kids: []*cvt{cvGenTypeSpine(depth-1, name+"_in")}}
+	case 1:
+		return &cvt{k: 'O', kids: []*cvt{cvGenTypeSpine(depth-1, name+"_in")}}
+	}
+	t := &cvt{k: 'o', keys: cvKeySets[1]}
+	for i, key := range t.keys {
+		if i == 0 {
+			t.kids = append(t.kids, cvGenTypeSpine(depth-1, name+"_"+key))
+		} else {
+			t.kids = append(t.kids, &cvt{k: 'i'})
+		}
+	}
+	return t
+}
+
+// VerifHarness_CastSpine: DeepCast on chains of D containers around a leaf (both libraries, with and without casts).
+func VerifHarness_CastSpine() {
+	d := herrors.VerifParam("depth", 2)
+	lib := herrors.VerifNdIntRange("lib", 0, 1)
+	allow := herrors.VerifNdIntRange("allow", 0, 1) == 1
+	v := cvGenValueSpine(d, "v")
+	t := cvGenTypeSpine(d, "t")
+	herrors.VerifTag("lib", []string{"vm", "tree"}[lib])
+	herrors.VerifTag("class", v.String()+" as "+t.String()+fmt.Sprint(" allow=", allow))
+	admitted, want := cvAdmit(v, t, allow)
+	typ := t.ast()
+	if lib == 0 {
+		var res *vvalue.Value
+		var cerr *vvalue.CastError
+		p, msg := herrors.VerifPanics(func() { res, cerr = vvalue.DeepCast(*v.vm(), typ, herrors.Span{}, allow) })
+		if p {
+			herrors.VerifTag("panic", herrors.VerifNorm(msg))
+		}
+		herrors.VerifAssert("no-panic", !p)
+		if p {
+			return
+		}
+		herrors.VerifReached("returned")
+		if admitted {
+			herrors.VerifAssert("conforming-value-admitted", cerr == nil)
+			if cerr == nil {
+				herrors.VerifAssert("admitted-value-is-the-conversion", cvSameVM(res, want))
+			}
+		} else {
+			herrors.VerifAssert("non-conforming-value-rejected", cerr != nil)
+		}
+		return
+	}
+	var res *ivalue.Value
+	var intr *ivalue.Interrupt
+	p, msg := herrors.VerifPanics(func() { res, intr = ivalue.DeepCast(*v.tree(), typ, herrors.Span{}, allow) })
+	if p {
+		herrors.VerifTag("panic", herrors.VerifNorm(msg))
+	}
+	herrors.VerifAssert("no-panic", !p)
+	if p {
+		return
+	}
+	herrors.VerifReached("returned")
+	if admitted {
+		herrors.VerifAssert("conforming-value-admitted", intr == nil)
+		if intr == nil {
+			herrors.VerifAssert("admitted-value-is-the-conversion", cvSameTree(res, want))
+		}
+	} else {
+		herrors.VerifAssert("non-conforming-value-rejected", intr != nil)
+	}
+}
